@@ -9,11 +9,24 @@ def str (s : String) : Str := TM.ofString s
 
 def optStr (t : String) : Option Str := if t == "-" then none else some (str t)
 
+/-- `[-]i.f` with f one of 0, 25, 5, 75: the value in quarters -/
+def parseQuarters (t : String) : Option Int :=
+  let neg := t.startsWith "-"
+  let a := if neg then (t.drop 1).toString else t
+  match a.splitOn "." with
+  | [ip, fp] =>
+    match ip.toNat?, (if fp == "0" then some 0 else if fp == "25" then some 1 else if fp == "5" then some 2 else if fp == "75" then some 3 else none) with
+    | some i, some (f : Nat) => some (if neg then -((4 * i + f : Nat) : Int) else ((4 * i + f : Nat) : Int))
+    | _, _ => none
+  | _ => none
+
 def parseVal (t : String) : Val :=
   if t == "true" then .bool true else if t == "false" then .bool false
   else match t.toInt? with
     | some n => .int n
-    | none => .other
+    | none => match parseQuarters t with
+      | some q => .float q
+      | none => .other
 
 def plusSplit (t : String) : List String := if t == "-" then [] else t.splitOn "+"
 
